@@ -90,15 +90,16 @@ type stats struct {
 }
 
 type knownFinding struct {
-	ID       string   `json:"id"`
-	Property string   `json:"property"`
-	Also     []string `json:"also_surfaces_in,omitempty"` // further properties whose checks can meet the same defect
-	Status   string   `json:"status"`                     // open | fixed
-	Commit   string   `json:"commit,omitempty"`
-	SigRe    string   `json:"sig_re"`  // regexp on the violation signature
-	PlanRe   string   `json:"plan_re"` // regexp on the minimised op-kind pattern (optional)
-	What     string   `json:"what"`
-	InChild  bool     `json:"in_child,omitempty"` // tolerance predicate implemented in the child (-known)
+	ID       string          `json:"id"`
+	Property string          `json:"property"`
+	Also     []string        `json:"also_surfaces_in,omitempty"` // further properties whose checks can meet the same defect
+	Status   string          `json:"status"`                     // open | fixed
+	Commit   string          `json:"commit,omitempty"`
+	SigRe    string          `json:"sig_re"`  // regexp on the violation signature
+	PlanRe   string          `json:"plan_re"` // regexp on the minimised op-kind pattern (optional)
+	What     string          `json:"what"`
+	InChild  bool            `json:"in_child,omitempty"` // tolerance predicate implemented in the child (-known)
+	Witness  json.RawMessage `json:"witness,omitempty"`  // explicit plan that demonstrates the finding; run first by the owning check
 }
 
 func (k *knownFinding) appliesTo(prop string) bool {
@@ -180,16 +181,17 @@ type job struct {
 }
 
 type runner struct {
-	prop    string
-	tier    string
-	bins    map[string]string
-	scratch string
-	known   string
-	mu      sync.Mutex
-	results []*result
-	samples []json.RawMessage
-	procs   int
-	harness []string
+	prop        string
+	tier        string
+	bins        map[string]string
+	scratch     string
+	known       string
+	mu          sync.Mutex
+	results     []*result
+	samples     []json.RawMessage
+	procs       int
+	harness     []string
+	witnessSeen []string
 }
 
 func childEnv(home string, variant string) []string {
@@ -788,6 +790,36 @@ func main() {
 		os.Exit(doReplay(r, prop, replay))
 	}
 
+	// witness plans of open known findings run first, each in a fresh child
+	witnessCode := 0
+	for i := range known {
+		k := &known[i]
+		if k.Status != "open" || k.Property != prop || len(k.Witness) == 0 {
+			continue
+		}
+		x := r.replayPlan(k.Witness, "plain")
+		switch {
+		case x == nil || x.Verdict == "ok":
+			fmt.Printf("vcheck: witness of known finding %s no longer fails on this tree\n", k.ID)
+		case x.Verdict == "violation":
+			if ok, _ := regexp.MatchString(k.SigRe, x.Sig); ok {
+				fmt.Printf("KNOWN-FINDING: property=%s %s [%s] (witness plan from known_findings.json: %s)\n", prop, k.What, k.ID, firstLines(x.Msg, 2))
+				r.witnessSeen = append(r.witnessSeen, k.ID)
+			} else {
+				os.MkdirAll(filepath.Join(outDir, "replays"), 0755)
+				head, dirty := gitInfo()
+				rf := replayFile{Property: prop, World: cfg.World, Variant: "plain", RepoHead: head, RepoDirty: dirty, Signature: x.Sig, Message: x.Msg, At: x.At, Plans: []json.RawMessage{k.Witness}}
+				path := filepath.Join(outDir, "replays", fmt.Sprintf("%s-witness-%s.json", prop, k.ID))
+				bb, _ := json.MarshalIndent(rf, "", " ")
+				os.WriteFile(path, bb, 0644)
+				fmt.Printf("witness of %s fails differently: %s\n  %s\nVIOLATION property=%s replay=%s\n", k.ID, x.Sig, firstLines(x.Msg, 6), prop, path)
+				witnessCode = 1
+			}
+		default:
+			fmt.Fprintf(os.Stderr, "vcheck: witness of %s: %s %s\n", k.ID, x.Verdict, x.Msg)
+			witnessCode = 2
+		}
+	}
 	// fan out
 	base := seed * 1000000000
 	var jobs []job
@@ -852,6 +884,9 @@ func main() {
 	wg.Wait()
 
 	code := finish(r, prop, tier, seed, cfg, known, t0)
+	if witnessCode > code {
+		code = witnessCode
+	}
 	if !keep {
 		os.RemoveAll(scratch)
 	}
@@ -938,7 +973,7 @@ func finish(r *runner, prop, tier string, seed uint64, cfg propCfg, known []know
 	head, dirty := gitInfo()
 	os.MkdirAll(filepath.Join(outDir, "replays"), 0755)
 	exit := 0
-	var knownSeen []string
+	knownSeen := append([]string(nil), r.witnessSeen...)
 	reported := 0
 	for _, s := range sigs {
 		group := bySig[s]
